@@ -431,6 +431,19 @@ func genDetFiles(rt *rapid.T, withBig bool, nondyadic int) map[string]string {
 	files["big.nw"] = "(a,b,c);\n"
 	if withBig {
 		files["big.nw"] = bigTreeText(int64(rapid.IntRange(1, 1<<30).Draw(rt, "bigseed")), rapid.SampledFrom([]int{1001, 1025}).Draw(rt, "bigsize"), false) + "\n"
+		switch rapid.IntRange(0, 2).Draw(rt, "bigmode") {
+		case 1:
+			// every branch of the same length: many pairs of tips are exactly as far apart as the two most distant ones (ties in every "longest" / "closest" search)
+			files["big.nw"] = regexp.MustCompile(`:[0-9.]+`).ReplaceAllString(files["big.nw"], ":1")
+		case 2:
+			// two very divergent sister taxa: the longest path joins two tips that are next to each other in every traversal, and is as long from either end
+			cherry := regexp.MustCompile(`\((b[0-9]+):[0-9.]+,(b[0-9]+):[0-9.]+\)`)
+			if ms := cherry.FindAllStringSubmatchIndex(files["big.nw"], -1); len(ms) > 0 {
+				m := ms[rapid.IntRange(0, 1<<20).Draw(rt, "cherry")%len(ms)]
+				t := files["big.nw"]
+				files["big.nw"] = t[:m[0]] + "(" + t[m[2]:m[3]] + ":500," + t[m[4]:m[5]] + ":500)" + t[m[1]:]
+			}
+		}
 	}
 	// a Nextstrain export without the "aa" label: mutations of several genes on the same branch
 	files["ns.json"] = `{"version":"v2","meta":{"title":"t"},"tree":{"name":"NODE_0","node_attrs":{"div":0},"children":[` +
@@ -782,7 +795,7 @@ func execC18(t *testing.T, cc any, o *Outcome) {
 		o.Probe("schedule-sweep")
 		for k := 1; k <= c.Sweep; k++ {
 			s := c.SeamA
-			s.Sched.Strategy = k % 4
+			s.Sched.Strategy = k % 5
 			s.Sched.Seed = c.SeamA.Sched.Seed*31 + uint64(k)*0x9E3779B97F4A7C15
 			s.Sched.Choices = nil
 			s.Sched.SitePct = 100
